@@ -61,7 +61,11 @@ def ensure_build(asan=False, log=None):
     fcntl.flock(lock, fcntl.LOCK_EX)
     try:
         hsh = _ext_hash(flags)
-        bdir = os.path.join(BUILD_ROOT, f"{flags}-{hsh}")
+        # builds of a scratch tree (VERIF_REPO, used by tools/seed_*.py, possibly several in
+        # parallel) are kept apart from the builds of /repo: same extension sources but different
+        # Python sources must never share a directory
+        tag = repo_tag(REPO)
+        bdir = os.path.join(BUILD_ROOT, f"{flags}{tag}-{hsh}")
         src = os.path.join(bdir, "src")
         os.makedirs(bdir, exist_ok=True)
         # always resync sources (never the repo's own .so / generated .c)
@@ -103,7 +107,7 @@ def ensure_build(asan=False, log=None):
             open(stamp, "w").write(f"{time.time() - t0:.1f}s\n")
             # drop stale builds of the same flavour
             for other in os.listdir(BUILD_ROOT):
-                if other.startswith(flags + "-") and \
+                if re.fullmatch(re.escape(flags + tag) + r"-[0-9a-f]{16}", other) and \
                         os.path.join(BUILD_ROOT, other) != bdir:
                     shutil.rmtree(os.path.join(BUILD_ROOT, other),
                                   ignore_errors=True)
@@ -112,7 +116,14 @@ def ensure_build(asan=False, log=None):
             d = os.path.join(src, "pyunicorn", pkg, "_ext")
             out = os.path.join(bdir, "so", pkg)
             for fn in os.listdir(out):
-                shutil.copy(os.path.join(out, fn), os.path.join(d, fn))
+                a, b = os.path.join(out, fn), os.path.join(d, fn)
+                # never rewrite a .so another running check may have mapped: copy only when
+                # missing or different, and then atomically (new inode)
+                if not os.path.exists(b) or os.path.getsize(a) != os.path.getsize(b) \
+                        or os.path.getmtime(b) < os.path.getmtime(a):
+                    tmp = b + f".tmp{os.getpid()}"
+                    shutil.copy(a, tmp)
+                    os.replace(tmp, b)
         return src
     finally:
         fcntl.flock(lock, fcntl.LOCK_UN)
@@ -121,6 +132,21 @@ def ensure_build(asan=False, log=None):
 
 class BuildError(Exception):
     pass
+
+
+def repo_tag(repo):
+    return "" if os.path.realpath(repo) == "/repo" else \
+        "-wt" + hashlib.sha1(os.path.realpath(repo).encode()).hexdigest()[:8]
+
+
+def drop_builds_for(repo):
+    """remove the builds made for a scratch tree (called by tools/seed_*.py when done)"""
+    tag = repo_tag(repo)
+    if not tag or not os.path.isdir(BUILD_ROOT):
+        return
+    for other in os.listdir(BUILD_ROOT):
+        if tag + "-" in other:
+            shutil.rmtree(os.path.join(BUILD_ROOT, other), ignore_errors=True)
 
 
 def use_build(asan=False):
